@@ -362,6 +362,18 @@ func init() {
 				r.Dist["variable-cases"]++
 			}
 		}
+		// the EMPTY string is a value: a variable set to it (through every setter and tag) equals the literal "",
+		// differs from "x", matches the empty case of a switch — and compares like the same value set statically
+		for _, set := range []SOp{{Kind: "string", Name: "s", Val: ""}, {Kind: "bytes", Name: "s", Val: []byte{}}, {Kind: "static", Name: "s", Val: ""}, {Kind: "static", Name: "s", Val: []byte{}}} {
+			for _, before := range []SOp{{Kind: "static", Name: "zz", Val: int64(0)}, {Kind: "string", Name: "s", Val: "old"}, {Kind: "counter", Name: "s", Val: 3}} {
+				src := `{% if s == "" %}E{% else %}n{% endif %}{% if s != "x" %}D{% else %}s{% endif %}{% if "" == s %}E{% else %}n{% endif %}{%= s == "" ? ya : na %}{% if s == "x" %}X{% else %}-{% endif %}` +
+					`{% switch s %}{% case "x" %}x{% case "" %}empty{% default %}dflt{% endswitch %}{% switch %}{% case s == "" %}e2{% default %}d2{% endswitch %}{% if s == t %}T{% else %}t{% endif %}[{%= s %}]{% if len(s) == 0 %}L0{% endif %}`
+				c := &RCase{Tpls: []TplDef{{Key: "main", Src: src, KeepFmt: true}, {Key: "viactx", Src: `{% ctx s = "tmp" %}{% ctx s = e %}` + src, KeepFmt: true}}, Meta: map[string]any{"empty-string-operand": set.Desc(), "before": before.Desc()}}
+				c.Ops = []SOp{{Kind: "static", Name: "ya", Val: "a"}, {Kind: "static", Name: "na", Val: "b"}, {Kind: "string", Name: "t", Val: ""}, {Kind: "string", Name: "e", Val: ""}, before, set, {Kind: "render", Key: "main"}, {Kind: "render", Key: "main"}}
+				cases = append(cases, c)
+				r.Dist["empty-string-operand"]++
+			}
+		}
 		runSessions(r, cases, outputDiffers)
 		helperNamespaces(r)
 	}
@@ -594,6 +606,7 @@ func init() {
 			}
 		}
 		runSessions(r, cases, outputDiffers)
+		c14Spellings(r)
 		// depths written with two digits or a leading zero (a relation on the real engine alone — what the depth
 		// means is decided by the parser): in a three-level nest every depth >= 3 ends all three loops, and 02 is 2
 		for _, ka := range "cr" {
@@ -630,6 +643,7 @@ func init() {
 			}
 		}
 	}
+	// (C14, continued — appended by init order: see c14Spellings)
 	props["C16"] = func(r *Run) {
 		r.Rule = "random templates with include (both spellings, name lists with missing entries, nested one level, inside loops/conditions/regions) and exit at arbitrary positions; Go output vs Lean interpreter model"
 		cfg := GenCfg{MaxDepth: 3, MaxNodes: 16, Loops: true, Switch: true, Include: true, Exit: true, Region: true, Ctl: true, LazyBreak: true, BreakN: true}
@@ -817,6 +831,57 @@ func loopVarNames(r *Run) {
 			if bad != "" || outs[0].ErrStr() != outs[1].ErrStr() || !bytes.Equal(outs[0].Out, outs[1].Out) {
 				r.Violate(sig, "a loop whose variables are named "+names[0]+" / "+names[1]+" renders differently from the same loop with plain names",
 					map[string]any{"source": mk(names[0], names[1]), "plain_source": mk("kk", "vv"), "output": string(outs[0].Out), "plain_output": string(outs[1].Out), "error": outs[0].ErrStr(), "problem": bad})
+			}
+		}
+	}
+}
+
+// c14Spellings: a loop-control tag in which something other than a recognised condition follows the depth — two
+// blanks or a tab before `if`, a tag wrapped over two lines, another word, a second number — is not a conditional
+// form. Parse must reject it, or the tag must behave like the same instruction wrapped in the if block; it must never
+// run as the UNCONDITIONAL instruction.
+func c14Spellings(r *Run) {
+	wrapped := func(instr string) string {
+		return "{% for a := 0; a < 2; a++ %}[{% for c := 0; c < 3; c++ %}{%= a %}{%= c %}{% if c == 7 %}{% " + instr + " %}{% endif %},{% endfor %}]{% endfor %}E"
+	}
+	for _, instr := range []string{"break 2", "lazybreak 2", "break 1", "lazybreak 3"} {
+		kw, err, pan := regTpl(wrapped(instr), true)
+		if err != nil || pan != "" {
+			r.Internal("C14 spellings: the wrapped form does not parse")
+			return
+		}
+		want := renderSafe(kw, dyntpl.NewCtx())
+		for _, gap := range []string{"  ", "\t", " \t ", "\n\t\t", "   "} {
+			for _, keep := range []bool{true, false} {
+				src := "{% for a := 0; a < 2; a++ %}[{% for c := 0; c < 3; c++ %}{%= a %}{%= c %}{% " + instr + gap + "if c == 7 %},{% endfor %}]{% endfor %}E"
+				tree, perr, ppan := parseSafe([]byte(src), keep)
+				sig := fmt.Sprintf("conditional-spelling %q gap=%q keepFmt=%v", instr, gap, keep)
+				r.Count(sig, true)
+				r.Dist["conditional-spelling"]++
+				if ppan != "" {
+					r.Violate(sig+" panic", "Parse panicked", map[string]any{"source": src, "panic": ppan})
+					continue
+				}
+				if perr != nil {
+					r.Dist["conditional-spelling:rejected"]++
+					continue // rejected: fine
+				}
+				dyntpl.RegisterTplKey("c14spelling", tree)
+				got := renderSafe("c14spelling", dyntpl.NewCtx())
+				if got.ErrStr() != want.ErrStr() || !bytes.Equal(got.Out, want.Out) {
+					r.Violate(sig, "a loop-control tag whose condition is not separated from the depth by exactly one blank is accepted by Parse and does not behave like the instruction wrapped in the if block (the condition is dropped)",
+						map[string]any{"source": src, "keepFmt": keep, "output": string(got.Out), "wrapped_source": wrapped(instr), "wrapped_output": string(want.Out), "error": got.ErrStr()})
+				}
+			}
+		}
+		for _, tail := range []string{" unless c == 7", ".5", " 3", " if", " iff c == 7"} {
+			src := "{% for a := 0; a < 2; a++ %}[{% for c := 0; c < 3; c++ %}{%= a %}{%= c %}{% " + instr + tail + " %},{% endfor %}]{% endfor %}E"
+			_, perr, ppan := parseSafe([]byte(src), true)
+			sig := fmt.Sprintf("conditional-spelling %q tail=%q", instr, tail)
+			r.Count(sig, true)
+			r.Dist["conditional-spelling"]++
+			if ppan != "" || perr == nil {
+				r.Violate(sig, "a loop-control tag with unrecognised text after its depth is accepted by Parse (it runs as the unconditional instruction)", map[string]any{"source": src, "panic": ppan})
 			}
 		}
 	}
